@@ -96,6 +96,11 @@ def qcow2_meta_spec(draw, tier):
             room -= ln + 16
     spec["extensions"] = exts
     spec["ext_order"] = draw(st.sampled_from(["before", "after"]))
+    # how the extension area ends: with the end marker, or without one — right where the backing file name starts, or with the
+    # first cluster (an unknown extension pads it out to the last byte; small clusters only)
+    spec["ext_end"] = draw(st.sampled_from(["marker", "marker", "none", "fill-cluster"]))
+    if spec["ext_end"] == "fill-cluster" and cb > 16:
+        spec["ext_end"] = "marker"
     if draw(st.booleans()):
         name = draw(utf8_name(min(1023, room - 32)))
         fmt = draw(st.sampled_from([None, "raw", "qcow2", "vmdk"]))
@@ -175,7 +180,7 @@ def strategy_(draw, tier):
             t = draw(st.sampled_from(["SPARSE", "FLAT", "VMFS", "VMFSSPARSE", "SESPARSE"]))
             exts.append({"access": draw(st.sampled_from(["RW", "RDONLY", "NOACCESS"])), "sectors": draw(st.integers(0, 2**40)), "type": t,
                          "file": draw(st.sampled_from(["disk-s001.vmdk", "disk with spaces.vmdk", "dïsk 🦊.vmdk", 'a "quoted" name.vmdk', "d'(1).vmdk",
-                                                     "Windows 10 #2-s001.vmdk", "#scratch.vmdk", "line\u2028sep.vmdk", "form\x0cfeed\x0bvt.vmdk", "fs\x1cnel\x85.vmdk"])) ,
+                                                     "Windows 10 #2-s001.vmdk", "#scratch.vmdk", "line\u2028sep.vmdk", "form\x0cfeed\x0bvt.vmdk", "fs\x1cnel\x85.vmdk", "cafe\u0301-\u212b.vmdk"])) ,
                          "offset": draw(st.sampled_from([None, 0, 123])) if t in ("FLAT", "VMFS", "SPARSE") else None})
         d = {"cid": "%08x" % draw(st.integers(0, 2**32 - 1)), "parent_cid": "ffffffff", "create_type": draw(st.sampled_from(["monolithicSparse", "vmfs", "twoGbMaxExtentFlat", "seSparse"])),
              "extents": exts, "crlf": draw(st.booleans()), "comments": draw(st.booleans()),
@@ -192,6 +197,7 @@ def strategy_(draw, tier):
             spec["extent"] = e
             spec["fill"] = draw(st.sampled_from(["pad", "pad", "exact", "exact-minus-1"]))
             spec["desc_gap"] = draw(st.sampled_from([0, 0, 3]))
+            spec["big_ddb"] = 19000 if draw(st.integers(0, 39)) == 0 else 0
         return spec
     if kind == "vhd":
         im = draw(c04.vhd_spec(tier))
@@ -221,7 +227,8 @@ def strategy_(draw, tier):
     for s in range(nst):
         n = draw(st.integers(1, 1 << 30))
         sts.append({"start": start, "end": start + n, "blocksize": 2048, "images": [
-            {"guid": g, "type": draw(st.sampled_from(["Compressed", "Plain"])), "file": draw(st.sampled_from([f"d.hdd.{s}.{{{g}}}.hds", f"/abs/päth/x {s}.hds", f"a&b<{s}>.hds"]))} for g in guids]})
+            {"guid": g, "type": draw(st.sampled_from(["Compressed", "Plain"])), "file": draw(st.sampled_from([f"d.hdd.{s}.{{{g}}}.hds", f"/abs/päth/x {s}.hds", f"a&b<{s}>.hds",
+                                                                                                        f"cafe\u0301 {s}.hds", f"\u212bngstro\u0308m-\u1112\u1161\u11ab {s}.hds"]))} for g in guids]})  # incl. names that are not NFC-normalised
         start += n
     shots = [{"guid": g, "parent": guids[i - 1] if i else bhdd.NULL_GUID} for i, g in enumerate(guids)]
     return {"kind": "hdd", "desc": {"disk_size": start, "storages": sts, "shots": shots, "top_guid": draw(st.sampled_from([None, guids[-1], guids[0]])),
@@ -419,6 +426,10 @@ class Checks:
         from dissect.hypervisor.disk.vmdk import VMDK
 
         d = dict(spec["desc"])
+        if spec.get("big_ddb"):
+            # a descriptor longer than 1 MiB (tens of thousands of ddb lines): every line of it is part of what the file stores
+            d["ddb"] = dict(d.get("ddb") or {}, **{f"ddb.custom.entry{i:05d}": f"value number {i} of a long list" for i in range(spec["big_ddb"])})
+            out.cls("descriptor>1MiB")
         text = bvmdk.descriptor_text(d)
         fill = spec["fill"]
         raw = text.encode()
